@@ -101,6 +101,7 @@ type partSum struct {
 
 type scenario struct {
 	t      *testing.T
+	mu     sync.Mutex // guards conns, srvSCIDs, retrySCIDs, tracing (shared by the test and the delivery goroutine)
 	seed   uint64
 	spec   scnSpec
 	faults []faultSpec
@@ -159,6 +160,8 @@ func (sc *scenario) connIndex(c *quic.Conn) int {
 	if c == nil {
 		return -1
 	}
+	sc.mu.Lock()
+	defer sc.mu.Unlock()
 	for i, x := range sc.conns {
 		if x == c {
 			return i
@@ -174,6 +177,12 @@ func (sc *scenario) noteConns() {
 	}
 }
 
+func (sc *scenario) isTracing() bool {
+	sc.mu.Lock()
+	defer sc.mu.Unlock()
+	return sc.tracing
+}
+
 // knowledge of an on-path observer, from the datagrams the client and the server sent so far
 func (sc *scenario) know() knowledge {
 	var k knowledge
@@ -187,9 +196,11 @@ func (sc *scenario) know() knowledge {
 			}
 		}
 	}
+	sc.mu.Lock()
 	if n := len(sc.srvSCIDs); n > 0 {
 		k.sSCID, k.hasS = protocol.ParseConnectionID(sc.srvSCIDs[n-1]), true
 	}
+	sc.mu.Unlock()
 	return k
 }
 
@@ -317,6 +328,7 @@ func evTxt(ev qlogwriter.Event) string {
 
 // deliver hands one datagram to the client, waits until the client is quiescent and records what happened.
 func (sc *scenario) deliver(src string, data, orig []byte, intactAll bool) {
+	synctest.Wait() // whatever else woke up at this instant has run to completion: the client is quiescent
 	sc.noteConns()
 	sc.noteClientCIDs()
 	conn := sc.ctr.VerifRoute(data)
@@ -422,7 +434,7 @@ func (sc *scenario) deliver(src string, data, orig []byte, intactAll bool) {
 	// only the handshake phase is traced: afterwards duplicate detection forgets old packet numbers (C07)
 	// and the active connection ID moves (C16), which are not inputs of the gate model
 	skip := (conn != nil && d.pre.HandshakeComplete) || (conn == nil && sc.hsDone)
-	if sc.tracing && !skip {
+	if sc.isTracing() && !skip {
 		sc.trace = append(sc.trace, d)
 	}
 }
@@ -617,10 +629,12 @@ func (sc *scenario) fire(after int) {
 func (sc *scenario) noteGenuine(orig []byte) {
 	if len(orig) > 0 && wire.IsLongHeaderPacket(orig[0]) && !wire.IsVersionNegotiationPacket(orig) {
 		if hdr, _, _, err := wire.ParsePacket(orig); err == nil {
+			sc.mu.Lock()
 			sc.srvSCIDs = append(sc.srvSCIDs, hdr.SrcConnectionID.Bytes())
 			if hdr.Type == protocol.PacketTypeRetry {
 				sc.retrySCIDs = append(sc.retrySCIDs, hdr.SrcConnectionID.Bytes())
 			}
+			sc.mu.Unlock()
 		}
 	}
 }
@@ -635,11 +649,11 @@ func (sc *scenario) deliverLoop(stopped chan struct{}) {
 			case item.trig:
 				synctest.Wait()
 				sc.noteConns()
-				if sc.tracing {
+				if sc.isTracing() {
 					sc.fire(0)
 				}
 			case item.inj != nil:
-				if sc.tracing {
+				if sc.isTracing() {
 					sc.inject(item.inj)
 				}
 			default:
@@ -648,7 +662,7 @@ func (sc *scenario) deliverLoop(stopped chan struct{}) {
 				intact := item.fate == "ok" || item.fate == "dup" || item.fate == "delay"
 				sc.deliver(fmt.Sprintf("g%d:%s", item.gidx, item.fate), item.data, item.orig, intact)
 				sc.nGenuine++
-				if sc.tracing {
+				if sc.isTracing() {
 					sc.fire(sc.nGenuine)
 				}
 			}
@@ -990,7 +1004,10 @@ func (sc *scenario) run() (out *outcome) {
 	out.dial, out.hang, out.t, out.monoNow = errClass(r.err), hang, took, monoNow
 	time.Sleep(time.Microsecond) // settle (the delivery goroutine owns synctest.Wait)
 	sc.noteConns()
-	out.attempts = len(sc.conns)
+	sc.mu.Lock()
+	conns := append([]*quic.Conn(nil), sc.conns...)
+	sc.mu.Unlock()
+	out.attempts = len(conns)
 
 	if r.err == nil {
 		cs := r.c.ConnectionState()
@@ -1008,14 +1025,28 @@ func (sc *scenario) run() (out *outcome) {
 			ss := srv.ConnectionState()
 			out.sv, out.salpn, out.s0 = uint32(ss.Version), ss.TLS.NegotiatedProtocol, ss.Used0RTT
 			cg, sg := r.c.VerifGateState(), srv.VerifGateState()
-			k := sc.know()
-			ok := contains(sc.srvSCIDs, cg.HandshakeDestConnID) && k.ok && bytes.Equal(sg.HandshakeDestConnID, k.cSCID.Bytes())
+			// authenticated connection IDs, judged against what was on the wire: the client's peer ID is the source
+			// ID of a genuine server packet, the server's peer ID is the source ID of a client packet of that version,
+			// and a retry_source_connection_id exists iff the server asked for a Retry (and is the one it chose)
+			var cliSCIDs [][]byte
+			sc.nw.mu.Lock()
+			for _, d := range sc.nw.c2s {
+				if len(d) > 0 && wire.IsLongHeaderPacket(d[0]) {
+					if hdr, _, _, err := wire.ParsePacket(d); err == nil && uint32(hdr.Version) == out.cv {
+						cliSCIDs = append(cliSCIDs, hdr.SrcConnectionID.Bytes())
+					}
+				}
+			}
+			sc.nw.mu.Unlock()
+			sc.mu.Lock()
+			ok := contains(sc.srvSCIDs, cg.HandshakeDestConnID) && contains(cliSCIDs, sg.HandshakeDestConnID)
 			if cg.HasRetrySrcConnID != sc.spec.retry {
 				ok = false
 			}
 			if cg.HasRetrySrcConnID && !contains(sc.retrySCIDs, cg.RetrySrcConnID) {
 				ok = false
 			}
+			sc.mu.Unlock()
 			out.cids = "bad"
 			if ok {
 				out.cids = "ok"
@@ -1038,13 +1069,15 @@ func (sc *scenario) run() (out *outcome) {
 		r.c.CloseWithError(0, "")
 	} else {
 		// which timeout check fired, and when (for the Deadline model)
-		if n := len(sc.conns); n > 0 && (out.dial == "E:idle_timeout" || out.dial == "E:handshake_timeout") {
-			g := sc.conns[n-1].VerifGateState()
+		if n := len(conns); n > 0 && (out.dial == "E:idle_timeout" || out.dial == "E:handshake_timeout") {
+			g := conns[n-1].VerifGateState()
 			out.deadline = fmt.Sprintf("creation=%d last=%d first=%d hsidle=%d now=%d ka=%d", g.CreationTime, g.LastPacketReceivedTime, g.FirstAckElicitingSent,
 				g.HandshakeIdleTimeout, monoNow, g.KeepAlivePeriod)
 		}
 	}
+	sc.mu.Lock()
 	sc.tracing = false
+	sc.mu.Unlock()
 	// both sides release their state: no live connection remains on either transport
 	for i := 0; i < 40 && (liveCount(sc.ctr) > 0 || liveCount(str) > 0); i++ {
 		time.Sleep(500 * time.Millisecond)
